@@ -304,7 +304,7 @@ theorem utf16dec_plain (h l : Nat) (r : BytesN)
     (hns : ¬ (55296 ≤ h * 256 + l ∧ h * 256 + l < 57344)) :
     utf16dec (h :: l :: r) =
       if printable (h * 256 + l) then none else (utf16dec r).map ((h * 256 + l) :: ·) := by
-  rw [utf16dec]
+  rw [utf16dec.eq_def]
   simp only [hns, if_false]
 
 theorem utf16dec_sur (h l h2 l2 : Nat) (r : BytesN)
@@ -313,17 +313,17 @@ theorem utf16dec_sur (h l h2 l2 : Nat) (r : BytesN)
       if h * 256 + l < 56320 ∧ 56320 ≤ h2 * 256 + l2 ∧ h2 * 256 + l2 < 57344 then
         (utf16dec r).map (((h * 256 + l - 55296) * 1024 + (h2 * 256 + l2 - 56320) + 65536) :: ·)
       else none := by
-  rw [utf16dec]
+  rw [utf16dec.eq_def]
   simp only [hs, and_self, if_true]
 
 theorem utf16dec_sur_nil (h l : Nat) (hs : 55296 ≤ h * 256 + l ∧ h * 256 + l < 57344) :
     utf16dec [h, l] = none := by
-  rw [utf16dec]
+  rw [utf16dec.eq_def]
   simp only [hs, and_self, if_true]
 
 theorem scalarsOf_plain (u : Nat) (rest : List Nat) (hns : ¬ (55296 ≤ u ∧ u < 57344)) :
     scalarsOf (u :: rest) = (scalarsOf rest).map (u :: ·) := by
-  rw [scalarsOf]
+  rw [scalarsOf.eq_def]
   have h1 : ¬ (55296 ≤ u ∧ u ≤ 56319) := by omega
   have h2 : ¬ (56320 ≤ u ∧ u ≤ 57343) := by omega
   simp only [h1, h2, if_false]
@@ -333,7 +333,7 @@ theorem scalarsOf_sur (u l : Nat) (rest : List Nat) (hs : 55296 ≤ u ∧ u < 57
       if u < 56320 ∧ 56320 ≤ l ∧ l < 57344 then
         (scalarsOf rest).map (((u - 55296) * 1024 + (l - 56320) + 65536) :: ·)
       else none := by
-  rw [scalarsOf]
+  rw [scalarsOf.eq_def]
   by_cases hh : u < 56320
   · have h1 : 55296 ≤ u ∧ u ≤ 56319 := by omega
     simp only [h1, and_self, if_true, hh, true_and]
@@ -349,7 +349,7 @@ theorem scalarsOf_sur (u l : Nat) (rest : List Nat) (hs : 55296 ≤ u ∧ u < 57
     simp only [h1, h2, hh, and_self, false_and, if_true, if_false]
 
 theorem scalarsOf_sur_nil (u : Nat) (hs : 55296 ≤ u ∧ u < 57344) : scalarsOf [u] = none := by
-  rw [scalarsOf]
+  rw [scalarsOf.eq_def]
   by_cases hh : u < 56320
   · have h1 : 55296 ≤ u ∧ u ≤ 56319 := by omega
     simp only [h1, and_self, if_true]
@@ -363,7 +363,7 @@ theorem utf16dec_odd : ∀ bs : BytesN, bs.length % 2 = 1 → utf16dec bs = none
   | [_, _], h => by simp at h
   | [h, l, x], _ => by
     by_cases hs : 55296 ≤ h * 256 + l ∧ h * 256 + l < 57344
-    · rw [utf16dec]; simp only [hs, and_self, if_true]
+    · rw [utf16dec.eq_def]; simp only [hs, and_self, if_true]
     · rw [utf16dec_plain h l _ hs]
       split_ifs
       · rfl
@@ -441,6 +441,7 @@ theorem empty_tests (us : List Nat) :
       simp only [chk, Option.bind_some]
       split_ifs
       · rfl
-      · simp [hne]
+      · have : cs ≠ [] := by intro h; rw [h] at hne; cases hne
+        simp [this]
 
 end GoImap.Utf7Lemmas
